@@ -36,6 +36,7 @@ def finalize(merged, tier):
     q = tier == "quick"
     ec.min_counter(merged, out, "cluster_statistics_checked", 500 if q else 5000)
     ec.min_counter(merged, out, "task_arguments_checked", 500 if q else 5000)
+    ec.min_counter(merged, out, "optimiser_receipts_observed", 400 if q else 4000)    # what the entry point received inside the workers
     ec.min_counter(merged, out, "repop_events", 5 if q else 50)
     ec.unexpected(merged, out)
     return out
